@@ -646,7 +646,7 @@ func (a *fnAnalyzer) selector(x *ast.SelectorExpr, h held) {
 		return
 	}
 	a.fi.accesses = append(a.fi.accesses, accessSite{
-		loc: a.w.fieldOf[v], write: kind == "write", atomic: kind == "atomic",
+		loc: a.w.fieldOf[v], write: kind == "write" || kind == "atomic", atomic: kind == "atomic",
 		root: a.localVar(x.X), held: h.copy(), pos: x.Pos(),
 	})
 }
@@ -671,7 +671,7 @@ func (a *fnAnalyzer) ident(id *ast.Ident, h held) {
 			return
 		}
 		a.fi.accesses = append(a.fi.accesses, accessSite{
-			loc: o.Pkg().Name() + "." + o.Name(), write: kind == "write", atomic: kind == "atomic",
+			loc: o.Pkg().Name() + "." + o.Name(), write: kind == "write" || kind == "atomic", atomic: kind == "atomic",
 			held: h.copy(), pos: id.Pos(),
 		})
 	case *types.Func:
@@ -1490,6 +1490,39 @@ func main() {
 		}
 	}
 
+	// handlers (exported methods of *Server on the main thread) that can read Server.resolved
+	var resolvedReaders []string
+	for _, fi := range fis {
+		sig := fi.obj.Type().(*types.Signature)
+		if sig.Recv() == nil || !fi.obj.Exported() || !strings.HasPrefix(fi.key, "server.Server.") {
+			continue
+		}
+		seenF := map[*types.Func]bool{}
+		stack := []*funcInfo{fi}
+		hit := false
+		for len(stack) > 0 && !hit {
+			f := stack[len(stack)-1]
+			stack = stack[:len(stack)-1]
+			if seenF[f.obj] {
+				continue
+			}
+			seenF[f.obj] = true
+			for _, ac := range f.accesses {
+				if ac.loc == "Server.resolved" {
+					hit = true
+				}
+			}
+			for _, cs := range f.calls {
+				if g, ok := w.funcs[cs.callee]; ok && !cs.isGo {
+					stack = append(stack, g)
+				}
+			}
+		}
+		if hit {
+			resolvedReaders = append(resolvedReaders, fi.obj.Name())
+		}
+	}
+
 	// evidence from cmd/: the handler is called inline by the jsonrpc2 read loop
 	serial, setClientFirst := cmdEvidence(w, abs)
 
@@ -1681,6 +1714,7 @@ func main() {
 	fmt.Fprintf(&b, "/-- go/types errors while loading the packages (must be 0: the call graph and the field\n    resolution depend on complete type information) -/\ndef typeErrors : Nat := %d\n\n", len(w.typeErrs))
 	fmt.Fprintf(&b, "/-- cmd/hledger-lsp: no AsyncHandler, no go statement: the jsonrpc2 read loop calls the handler inline -/\ndef serialHandler : Bool := %s\n", boolS(serial))
 	fmt.Fprintf(&b, "/-- cmd/hledger-lsp main: NewServer and SetClient come before conn.Go -/\ndef setClientBeforeServe : Bool := %s\n\n", boolS(setClientFirst))
+	fmt.Fprintf(&b, "/-- exported methods of *Server from which an access to Server.resolved is reachable without passing a go statement -/\ndef resolvedReaders : List String := %s\n\n", strList(resolvedReaders, 0))
 	var unreached []string
 	for _, fi := range fis {
 		if fi.p.tracked && !reached[fi.obj] && len(fi.accesses) > 0 {
